@@ -151,7 +151,15 @@ func checkResolution(rec *Recipe, src []byte, formatted bool, ri *RunInfo) *Viol
 	specs, err := parseImports(src)
 	if err != nil {
 		ri.count("outputs_with_unparsable_imports", 1)
-		return nil // an invalid alias written by the user (keyword...) is C05's business
+		// Every name the workload supplies (declared names, aliases, prefixes) is a valid
+		// identifier or a reserved word jennifer renames, so an import block that does not
+		// even parse binds nothing: no qualifier of the file resolves.
+		if len(scanSymUses(src)) > 0 {
+			return &Violation{Rule: "C03-import-block-invalid",
+				Detail:   "the rendered File's import block does not parse (" + err.Error() + "), so no qualifier in the file is bound to its path",
+				Observed: trunc(string(src), 1800)}
+		}
+		return nil
 	}
 	sp := symPaths(rec)
 	bind := map[string]string{} // name -> path
